@@ -448,3 +448,33 @@ PLAN: Dict[str, dict] = {
 }
 
 NOT_APPLICABLE: Dict[str, str] = {}
+
+
+# Clauses added after the first build round (DESIGN.md sections 12-14), appended to the explanations above.
+EXTRA_EXPLANATION = {
+    "C01": " (5) align_shape rebuilds coefficients with a numpy broadcast idiom; the scalar power starts from the constant one in the base's dtype and multiplies exactly n times; a result whose terms all cancel keeps the shape and dtype of its inputs.",
+    "C02": " The indeterminates handed to the evaluation loop (iteration over poly.indeterminants) keep the polynomial's names; a non-constant result is re-aligned by name.",
+    "C03": " Exponent rows taken from an alignment result are paired with the names of that result (or of an operand of that alignment); the fall-back term of the clean-up has the shape and dtype of its input.",
+    "C04": " align_shape rebuilds coefficients with a numpy broadcast idiom (resize/tile/reshape are known-wrong); the option state the alignment reads (default_varname, retain_*) cannot be left half-set: set_options validates every key before the first write and global_options restores in finally.",
+    "C06": " gradient/hessian join the partials through constructors that receive the polynomial's own names.",
+    "C07": " The term walk iterates the glexsort permutation on every path (no storage-order shortcut); maximum/minimum select through where() in a dtype depending on both operands.",
+    "C08": " A function that REDUCE_MAPPINGS/ACCUMULATE_MAPPINGS map to is entered in the table __array_ufunc__ consults; functions that also exist as ndarray methods keep the names like the method does; a wrapper that calls itself recursively forwards every shared parameter.",
+    "C10": " The reduction methods of ndpoly forward every parameter to the function spelling; a wrapper that calls itself recursively forwards every shared parameter.",
+    "C11": " sortable_proxy (behind argmax/argmin/amax/amin) writes coefficient values into its integer proxy only as ranks.",
+    "C12": " A result whose terms were all filtered away keeps the dtype of its inputs; the constant one that seeds a power carries the base's dtype.",
+    "C13": " reshape (through which loadtxt restores the shape) re-wraps the storage with the polynomial's names.",
+    "C14": " Library code outside option.py that calls set_options itself restores every key it changed from a snapshot on every exit (O9), and no generator yields inside 'with global_options' (O10).",
+    "C16": " to_string fills precision / suppress_small from the numpy print option of the same meaning.",
+    "C18": " lexsort receives the keys promoted to 2-D and, with reverse, their rows flipped after that promotion; bindex's inverted ordering reverses rows only; cross_truncate divides by the bound only after negative and zero components were excluded; start/stop/dimensions/cross_truncation equal to 0 are never mistaken for 'omitted'.",
+    "C19": " tonumpy returns the coefficient of the all-zero exponent row (never a fixed position); sortable_proxy writes coefficients into the integer proxy only as ranks; set_dimensions keeps a term iff none of the dropped exponent columns is non-zero and filters coefficients with the same mask; isconstant is False exactly for a non-constant term with a non-zero coefficient; the graded sort is stable.",
+    "C20": " Exponent matrices are never created with a coefficient dtype nor scaled by a run-time value while still uint32; derivative looks the column index up in the names of the polynomial whose exponents it indexes.",
+}
+NOT_DECIDED_OVERRIDE = {
+    "C14": "nothing of the statement is left undecided for option.py itself; for the rest of the library only direct set_options calls and generator suspension inside a with-block are covered",
+    "C18": "that the index sets and norms are numerically right (the enumeration in _glexindex and the norm formula are value-level)",
+    "C19": "the values returned; tie-breaking inside the proxy; decompose summing back to the input",
+}
+for _pid, _text in EXTRA_EXPLANATION.items():
+    PLAN[_pid]["explanation"] += _text
+for _pid, _text in NOT_DECIDED_OVERRIDE.items():
+    PLAN[_pid]["not_decided"] = _text
